@@ -18,6 +18,10 @@ CHECKS = {
    "TLA+ state machine of the cache with two-step Cleanup/Reset (TTLCache/TTLModel) checked exhaustively by TLC for the C15 clauses; every bounded operation sequence executed on the real cache (fake clock) and concurrent histories (call/return order, staged scan/sweep window, Stop vs parked cleaner) validated by TLC as behaviours of the same spec (linearization search)",
    "TLC checks the three clauses on all interleavings of 2 clients + cleaner (16M states thorough); the real cache is driven through every op sequence up to length 5 (6) over a 10-letter alphabet and through thousands of concurrent histories, each accepted only if TLC finds silent linearization steps explaining every Get result",
    "trusted: TLC, k8s FakeClock, the order of call/return records (taken under one mutex); the periodic cleaner is over-approximated (may scan at any time while on), which can only hide, never invent, a violation", "DESIGN.md#c15"),
+ "C06": ("model_checking",
+   "implementation-shaped TLA+ model of the Processor (token, reset, stop, loop pcs) checked exhaustively by TLC for NoStranded/on-time/once + liveness; real Processor driven by a gated scheduler through its decision points (all interleavings sampled, staged windows forced), observable traces judged by TLC against the ProcContract monitor with a silent Pop step",
+   "TLC visits every interleaving of 3 clients x loop x clock of the model (0.75M states quick, more thorough, plus a liveness config); the real code is executed under ~700 (quick) to tens of thousands (thorough) controlled schedules with every loop decision point a gate, and each observable trace must be explainable by the contract (exactly once, not early, order, none stranded at quiescence, nothing after Close)",
+   "trusted: TLC; quiescence detection by goroutine wait states (a run that cannot be driven is inconclusive, never a violation); fake clock = k8s FakeClock; schedules are sampled, not exhaustive, on the real code", "DESIGN.md#c06"),
 }
 
 def hook_commits():
